@@ -256,3 +256,191 @@ def mutate(r: random.Random, data: bytes, n: int = 1) -> bytes:
             j = r.randrange(len(b))
             b[i], b[j] = b[j], b[i]
     return bytes(b)
+
+
+# ---------------------------------------------------------------------------------------------------------------
+# structure-aware value fuzzing: the framing (attribute TLV, MP_REACH header, per-family NLRI envelope) is right,
+# the values inside are hostile. Reaches the value decoders of every registered family and attribute, which a
+# byte-level mutation of a corpus message only reaches by luck.
+
+ALL_FAMILIES = [(1, 1), (1, 2), (1, 4), (1, 128), (1, 5), (1, 129), (1, 132), (1, 133), (1, 134), (1, 73), (1, 85), (2, 1), (2, 2), (2, 4), (2, 128), (2, 5), (2, 129), (2, 133), (2, 134), (2, 73), (2, 85), (25, 65), (25, 70), (16388, 71), (16388, 72)]
+ATTR_FLAGS = {1: 0x40, 2: 0x40, 3: 0x40, 4: 0x80, 5: 0x40, 6: 0x40, 7: 0xC0, 8: 0xC0, 9: 0x80, 10: 0x80, 14: 0x80, 15: 0x80, 16: 0xC0, 17: 0xC0, 18: 0xC0, 22: 0xC0, 23: 0xC0, 25: 0xC0, 26: 0x80, 29: 0x80, 32: 0xC0, 40: 0xC0}
+SPECIAL_FLOATS = [b'\x7f\xc0\x00\x00', b'\x7f\x80\x00\x00', b'\xff\x80\x00\x00', b'\x00\x00\x00\x00', b'\x00\x00\x00\x01', b'\x7f\x7f\xff\xff', b'\xff\xff\xff\xff', b'\x80\x00\x00\x00']
+
+
+def _rb(r: random.Random, n: int) -> bytes:
+    t = r.random()
+    if t < 0.15:
+        return b'\x00' * n
+    if t < 0.3:
+        return b'\xff' * n
+    return bytes(r.getrandbits(8) for _ in range(n))
+
+
+def _lenbyte(r: random.Random, n: int) -> int:
+    """a length octet describing n octets, sometimes lying"""
+    t = r.random()
+    if t < 0.8:
+        return n & 0xFF
+    return r.choice([0, 1, max(0, n - 1), n + 1, 2 * n, 255, r.randrange(256)]) & 0xFF
+
+
+def hostile_nlri(r: random.Random, afi: int, safi: int) -> bytes:
+    if safi in (70, 5):  # EVPN / MVPN: type, length, value
+        rtype = r.choice([1, 2, 3, 4, 5, 6, 7, r.randrange(256)])
+        typical = {1: 25, 2: r.choice([33, 37, 49]), 3: r.choice([17, 29]), 4: r.choice([23, 35]), 5: r.choice([34, 58])} if safi == 70 else {1: 12, 2: 12, 3: 22, 4: 30, 5: 22, 6: 22, 7: 22}
+        n = typical.get(rtype, r.randrange(0, 40)) + r.choice([0, 0, 0, -1, 1, 4, 12])
+        v = bytearray(_rb(r, max(0, n)))
+        if v and r.random() < 0.6:  # inner length octets: source / group / ip / mac lengths
+            for pos in r.sample(range(len(v)), min(len(v), r.randrange(1, 4))):
+                v[pos] = r.choice([0, 32, 48, 128, 33, 255, 8, 129])
+        return bytes([rtype, _lenbyte(r, len(v))]) + bytes(v)
+    if safi == 85:  # MUP: architecture, route type, length
+        n = r.choice([0, 9, 13, 17, 21, 25, 37, r.randrange(60)])
+        v = bytearray(_rb(r, n))
+        if len(v) > 8 and r.random() < 0.7:
+            v[8] = r.choice([0, 24, 32, 33, 64, 128, 129, 255])
+        return bytes([r.choice([1, 1, 1, 0, 2]), 0, r.choice([1, 2, 3, 4, 5, 0]), _lenbyte(r, len(v))]) + bytes(v)
+    if safi in (71, 72):  # BGP-LS: type(2) length(2) [rd] protocol-id identifier(8) descriptors TLVs
+        tlvs = b''
+        for _ in range(r.randrange(0, 4)):
+            t = r.choice([256, 257, 258, 259, 263, 264, 265, 266, 512, 513, 514, 515, 516, 517, 518, r.randrange(65536)])
+            inner = b''
+            for _ in range(r.randrange(0, 3)):
+                v = _rb(r, r.choice([0, 1, 4, 6, 8, 16, 3]))
+                inner += struct.pack('!HH', r.choice([512, 513, 514, 515, 260, 261, 262, r.randrange(1024)]), len(v) if r.random() < 0.85 else r.randrange(64)) + v
+            if t not in (256, 257) or r.random() < 0.3:
+                inner = _rb(r, r.choice([0, 1, 4, 5, 8, 16, 17]))
+            tlvs += struct.pack('!HH', t, len(inner) if r.random() < 0.85 else r.randrange(80)) + inner
+        body = (_rb(r, 8) if safi == 72 else b'') + bytes([r.choice([1, 2, 3, 4, 5, 6, 7, 0, 200])]) + _rb(r, 8) + tlvs
+        return struct.pack('!HH', r.choice([1, 2, 3, 4, 6, r.randrange(16)]), len(body) if r.random() < 0.85 else r.randrange(200)) + body
+    if safi in (133, 134):  # FlowSpec: length, [rd], components
+        comp = b''
+        for _ in range(r.randrange(0, 5)):
+            t = r.choice([1, 2, 3, 4, 5, 6, 7, 8, 9, 10, 11, 12, 13, 0, 14, 200])
+            if t in (1, 2):
+                bits = r.choice([0, 8, 24, 32, 33, 64, 128, 129, 255])
+                comp += bytes([t, bits]) + (bytes([r.choice([0, 8, bits, 200])]) if afi == 2 else b'') + _rb(r, r.choice([(bits + 7) // 8, 0, 1, 4, 16]))
+            else:
+                for i in range(r.randrange(1, 4)):
+                    ln = r.randrange(4)
+                    op = (ln << 4) | r.getrandbits(4) & 0x0F | (0x80 if r.random() < 0.4 else 0) | (r.choice([0, 0x40]))
+                    comp += (bytes([t]) if i == 0 else b'') + bytes([op]) + _rb(r, 1 << ln if r.random() < 0.9 else r.randrange(5))
+        comp = (_rb(r, r.choice([8, 8, 8, 3])) if safi == 134 else b'') + comp
+        n = len(comp) if r.random() < 0.85 else r.randrange(300)
+        return (bytes([n]) if n < 240 and r.random() < 0.9 else struct.pack('!H', 0xF000 | n & 0xFFF)) + comp
+    if safi == 65:  # VPLS
+        v = _rb(r, r.choice([17, 17, 17, 0, 8, 16, 18, 30]))
+        return struct.pack('!H', len(v) if r.random() < 0.8 else r.randrange(40)) + v
+    if safi == 132:  # RTC
+        bits = r.choice([0, 32, 96, 48, 64, 97, 128, 255, 31])
+        return bytes([bits]) + _rb(r, r.choice([(bits + 7) // 8, 12, 0, 4]))
+    if safi == 73:  # SR policy: length, distinguisher, color, endpoint
+        bits = r.choice([96, 192, 0, 64, 97, 128, 255])
+        return bytes([bits]) + _rb(r, r.choice([(bits + 7) // 8, 12, 24, 0, 5]))
+    # prefix style families: mask [labels] [rd] prefix
+    extra = 0
+    lab = b''
+    if safi in (4, 128, 129):
+        nl = r.choice([1, 1, 1, 2, 3, 0])
+        for i in range(nl):
+            lab += struct.pack('!L', (r.choice([0, 3, 16, 0x7FFFF, 0xFFFFF, 0x80000]) << 4) | (1 if (i == nl - 1 and r.random() < 0.85) else r.choice([0, 1])))[1:]
+        if r.random() < 0.1:
+            lab = b'\x80\x00\x00'
+        extra += 8 * len(lab)
+    rd = b''
+    if safi in (128, 129):
+        rd = struct.pack('!H', r.choice([0, 1, 2, 3, 7])) + _rb(r, 6)
+        extra += 64
+    maxb = 32 if afi == 1 else 128
+    bits = r.choice([0, 1, 8, 24, maxb, maxb + 1, 200, r.randrange(maxb + 1)])
+    mask = extra + bits
+    return bytes([mask & 0xFF if r.random() < 0.9 else r.randrange(256)]) + lab + rd + _rb(r, (bits + 7) // 8 if r.random() < 0.9 else r.randrange(20))
+
+
+def hostile_extcom(r: random.Random) -> bytes:
+    t = r.choice([0x00, 0x01, 0x02, 0x03, 0x06, 0x40, 0x41, 0x42, 0x43, 0x80, 0x80, 0x80, 0x81, 0x82, 0x88, 0x90, r.randrange(256)])
+    st = r.choice([0x02, 0x03, 0x04, 0x06, 0x06, 0x07, 0x08, 0x09, 0x0A, 0x0B, 0x0C, 0x0D, 0x00, 0x01, 0x05, r.randrange(256)])
+    if t in (0x80, 0x40) and st in (0x06, 0x0C) or r.random() < 0.15:
+        return bytes([t, st]) + _rb(r, 2) + r.choice(SPECIAL_FLOATS)
+    return bytes([t, st]) + _rb(r, 6)
+
+
+def hostile_attr(r: random.Random, asn4: bool) -> bytes:
+    code = r.choice([4, 5, 6, 7, 8, 9, 10, 16, 16, 16, 17, 18, 22, 22, 23, 23, 25, 26, 29, 29, 32, 40, 40, r.choice([11, 12, 13, 19, 20, 21, 24, 27, 28, 30, 31, 33, 34, 35, 36, 37, 38, 39, 128, 255])])
+    flags = ATTR_FLAGS.get(code, 0xC0)
+    if code == 16:
+        v = b''.join(hostile_extcom(r) for _ in range(r.randrange(1, 5)))
+    elif code == 25:
+        v = b''.join(bytes([r.choice([0x00, 0x40, 0x80, r.randrange(256)]), r.choice([0x02, 0x03, 0x0B, 0x0C, 0x0D, r.randrange(256)])]) + _rb(r, 18) for _ in range(r.randrange(1, 3)))
+    elif code == 32:
+        v = _rb(r, 12 * r.randrange(1, 4))
+    elif code == 8:
+        v = b''.join(r.choice([b'\xff\xff\xff\x01', b'\xff\xff\xff\x02', b'\xff\xff\xff\x03', b'\xff\xff\x00\x00', _rb(r, 4)]) for _ in range(r.randrange(1, 6)))
+    elif code in (22, 23, 29, 40, 26):
+        # TLV containers (PMSI: flags type label(3) id; tunnel encap: type(2) len(2) subTLVs; BGP-LS / prefix-SID: TLVs; AIGP: type len(2))
+        v = b''
+        if code == 22:
+            v = bytes([r.getrandbits(8), r.choice([0, 1, 2, 3, 4, 5, 6, 7, 9, 10, 11, 200])]) + _rb(r, 3) + _rb(r, r.choice([0, 4, 8, 12, 16, 20, 24, 5]))
+        elif code == 26:
+            n = r.choice([11, 11, 3, 4, 12, 0, 65535])
+            v = bytes([r.choice([1, 1, 2, 0])]) + struct.pack('!H', n) + _rb(r, r.choice([8, 8, 0, 1, 9]))
+        else:
+            for _ in range(r.randrange(1, 4)):
+                if code == 23:
+                    sub = b''
+                    for _ in range(r.randrange(0, 4)):
+                        st = r.choice([1, 2, 3, 4, 6, 7, 8, 9, 10, 11, 12, 13, 14, 15, 20, 128, 129, 130, 200])
+                        sv = _rb(r, r.choice([0, 1, 2, 4, 6, 8, 18, 20, 3]))
+                        sub += (bytes([st]) + (struct.pack('!H', len(sv)) if st >= 128 else bytes([_lenbyte(r, len(sv))])) + sv)
+                    v += struct.pack('!HH', r.choice([1, 2, 7, 8, 11, 13, 15, 15, 15, 200]), len(sub) if r.random() < 0.85 else r.randrange(100)) + sub
+                elif code == 40:
+                    t = r.choice([1, 3, 4, 5, 6, 200])
+                    if t in (5, 6):
+                        sv = _rb(r, r.choice([1, 17, 18]))
+                        for _ in range(r.randrange(0, 3)):
+                            ssv = _rb(r, r.choice([0, 6, 20, 21, 30, 3]))
+                            sv += bytes([r.choice([1, 2, 200])]) + struct.pack('!H', len(ssv) if r.random() < 0.85 else r.randrange(60)) + ssv
+                    else:
+                        sv = _rb(r, r.choice([7, 10, 16, 0, 3, 8]))
+                    v += bytes([t]) + struct.pack('!H', len(sv) if r.random() < 0.85 else r.randrange(80)) + sv
+                else:  # BGP-LS attribute TLVs
+                    t = r.choice([1024, 1025, 1026, 1027, 1028, 1029, 1030, 1031, 1034, 1035, 1036, 1038, 1088, 1089, 1090, 1091, 1092, 1093, 1094, 1095, 1096, 1097, 1098, 1099, 1114, 1115, 1116, 1117, 1118, 1119, 1120, 1121, 1122, 1152, 1153, 1155, 1156, 1157, 1158, 1159, 1161, 1162, 1170, 1171, 1172, 1173, 1174, 1250, 1251, 1252, 1253, r.randrange(65536)])
+                    sv = _rb(r, r.choice([0, 1, 2, 3, 4, 5, 6, 7, 8, 12, 16, 20, 32, 9]))
+                    v += struct.pack('!HH', t, len(sv) if r.random() < 0.85 else r.randrange(64)) + sv
+    else:
+        v = _rb(r, r.choice([0, 1, 2, 3, 4, 5, 6, 7, 8, 9, 12, 16, 20]))
+    return enc_attr_raw(flags, code, v)
+
+
+def enc_attr_raw(flags: int, code: int, v: bytes) -> bytes:
+    if len(v) > 255:
+        return bytes([flags | 0x10, code]) + struct.pack('!H', len(v)) + v
+    return bytes([flags & 0xEF, code, len(v)]) + v
+
+
+def gen_structured(r: random.Random, asn4: bool) -> bytes:
+    """an UPDATE body whose framing is right and whose values are hostile"""
+    fmt = '!L' if asn4 else '!H'
+    attrs = enc_attr_raw(0x40, 1, b'\x00') + enc_attr_raw(0x40, 2, bytes([2, 1]) + struct.pack(fmt, 65001))
+    nlri = b''
+    t = r.random()
+    if t < 0.55:
+        afi, safi = r.choice(ALL_FAMILIES)
+        nh = r.choice([b'', _rb(r, 4), _rb(r, 16), _rb(r, 12), _rb(r, 24), _rb(r, 32), _rb(r, 5)]) if r.random() < 0.3 else {1: _rb(r, 4), 2: _rb(r, 16), 25: _rb(r, 4), 16388: _rb(r, 4)}[afi]
+        if safi in (128, 129) and r.random() < 0.8:
+            nh = b'\x00' * 8 + nh
+        if safi in (133, 134) and r.random() < 0.8:
+            nh = b''
+        body = struct.pack('!HBB', afi, safi, len(nh)) + nh + b'\x00' + b''.join(hostile_nlri(r, afi, safi) for _ in range(r.randrange(1, 4)))
+        if r.random() < 0.25:
+            body = struct.pack('!HB', afi, safi) + b''.join(hostile_nlri(r, afi, safi) for _ in range(r.randrange(1, 3)))
+            attrs += enc_attr_raw(0x80, 15, body)
+        else:
+            attrs += enc_attr_raw(0x80, 14, body)
+    else:
+        attrs += enc_attr_raw(0x40, 3, _rb(r, 4))
+        nlri = bytes([24]) + _rb(r, 3)
+    for _ in range(r.randrange(0, 3) if t < 0.55 else r.randrange(1, 4)):
+        attrs += hostile_attr(r, asn4)
+    return struct.pack('!H', 0) + struct.pack('!H', len(attrs)) + attrs + nlri
